@@ -31,7 +31,8 @@ class CallbackContext(Location, ActionCallback):
     to close when the line/method completes.
     """
 
-    def __init__(self, event: str, filename: str, line: int, name: str, callbacks: List['ActionCallback']):
+    def __init__(self, event: str, filename: str, line: int, name: str, callbacks: List['ActionCallback'],
+                 frame: FrameType = None):
         """Create new callback context."""
         super().__init__(Location.Position.END)
         self.__event = event
@@ -39,6 +40,7 @@ class CallbackContext(Location, ActionCallback):
         self.__function_name = name
         self.__line = line
         self.__callbacks = callbacks
+        self.__frame = frame
 
     def at_location(self, event: str, file: str, line: int, function_name: str, frame: FrameType) -> bool:
         """
@@ -55,10 +57,24 @@ class CallbackContext(Location, ActionCallback):
         if file != self.__filename or function_name != self.__function_name:
             return False
 
+        # the same function can be running more than once on this stack (recursion). While the invocation that
+        # created this context is still running, only its own events can complete it, not the ones of a nested call.
+        if self.__frame is not None and frame is not self.__frame and self.__is_running_below(frame):
+            return False
+
         if self.__event == 'line':
             return self.__check_at_next_line(event, file, function_name)
         else:
             return self.__check_at_method_end(event)
+
+    def __is_running_below(self, frame: FrameType) -> bool:
+        """Check if the frame that created this context is a caller of the given frame."""
+        caller = frame.f_back if frame is not None else None
+        while caller is not None:
+            if caller is self.__frame:
+                return True
+            caller = caller.f_back
+        return False
 
     def process(self, ctx: 'TriggerContext', event: str, frame: FrameType, arg: any):
         """
